@@ -176,3 +176,34 @@ pub fn guarded<T>(f: impl FnOnce() -> T + std::panic::UnwindSafe) -> Result<T, S
 pub fn silence_panics() {
     std::panic::set_hook(Box::new(|_| {}));
 }
+
+/// bits packed as "<n>:<hex>", four bits per hex digit, first bit = most significant of the first digit
+pub fn pack_bits(bits: &[bool]) -> String {
+    let mut s = format!("{}:", bits.len());
+    for ch in bits.chunks(4) {
+        let mut v = 0u8;
+        for k in 0..4 {
+            v <<= 1;
+            if k < ch.len() && ch[k] {
+                v |= 1;
+            }
+        }
+        s.push(char::from_digit(v as u32, 16).unwrap());
+    }
+    s
+}
+
+pub fn unpack_bits(s: &str) -> Vec<bool> {
+    let (n, h) = s.split_once(':').unwrap();
+    let n: usize = n.parse().unwrap();
+    let mut out = Vec::with_capacity(n);
+    for c in h.chars() {
+        let v = c.to_digit(16).unwrap();
+        for k in (0..4).rev() {
+            if out.len() < n {
+                out.push(v >> k & 1 == 1);
+            }
+        }
+    }
+    out
+}
